@@ -1281,6 +1281,7 @@ def main():
     ap.add_argument('--out', default='')
     ap.add_argument('--timeout', type=int, default=600)
     ap.add_argument('--ck', default='', help='cache mode: fix the call kinds, e.g. 0,0,2')
+    ap.add_argument('--graph', default='', help='work mode: fix initial adds and item graph, e.g. I=100,G=010001000 (row-major)')
     args = ap.parse_args()
     ssa = json.load(open(args.ssa))
     t0 = time.time()
@@ -1348,6 +1349,16 @@ def main():
             for t, c in enumerate(args.ck.split(',')):
                 base.append(m.const('CK_%d' % t, 'bv') == BV(int(c)))
 
+    if args.mode == 'work' and args.graph:
+        n = args.items
+        for part in args.graph.split(','):
+            k, bits = part.split('=')
+            if k == 'I':
+                for j, b in enumerate(bits):
+                    base.append(m.const('I_%d' % j) == (b == '1'))
+            elif k == 'G':
+                for idx, b in enumerate(bits):
+                    base.append(m.const('G_%d_%d' % (idx // n, idx % n)) == (b == '1'))
     results = {}
     queries = []
     def check(name, extra, expect):
